@@ -438,20 +438,6 @@ def nested_sets(module, tn):
     return out
 
 
-def is_alias_of(module, name, kind):
-    """the definition is a (chain of) plain reference(s) ending in a type of the given kind"""
-    t = module["asts"].get(name)
-    if t is None or t["k"] != "REF":
-        return False
-    return resolve(module, t)["k"] == kind
-
-
-def uses_alias_of(module, tn, kind):
-    if is_alias_of(module, tn, kind):
-        return True
-    return any(n["k"] == "REF" and is_alias_of(module, n["name"], kind) for n, _ in walk(module, module["asts"][tn], {tn}))
-
-
 def has_node(module, tn, pred):
     return any(pred(n) for n, _ in walk(module, module["asts"][tn], {tn}))
 
@@ -484,14 +470,6 @@ def classify(module, typename, syntax, status, stderr="", facts=()):
         return "C01-boolean-default-true"
     if syntax == "cper" and status == "ENCFAIL:EBADF" and "semi_lb" in facts:
         return "C01-uper-semiconstrained-lb"
-    # T2 ::= T1 with T1 a CHOICE / ENUMERATED: the VALUE holds a CHOICE / ENUMERATED whose descriptor has no PER constraints
-    if syntax == "cper" and status == "ENCFAIL:EBADF" and "choice_nopc" in facts and uses_alias_of(module, typename, "CHOICE"):
-        return "C01-choice-ref-no-per"
-    if syntax == "cper" and status == "ENCFAIL:EBADF" and "enum_nopc" in facts and uses_alias_of(module, typename, "ENUMERATED"):
-        return "C01-enum-ref-no-per"
-    if syntax == "cper" and status == "ENCFAIL:EBADF" and "ustr_nopc" in facts and \
-            has_node(module, typename, lambda n: n["k"] == "REF" and resolve(module, n).get("stype") in ("BMPString", "UniversalString")) :
-        return "C01-string-ref-no-per"
     if syntax == "cper" and status == "NEQ" and "km_map_ovf" in facts and has_node(module, typename, lambda n: n["k"] == "STRING" and n["stype"] == "PrintableString" and not n["cons"]):
         return "C01-uper-printablestring-default-bits"
     if status == "CMP" and "setof_dfl" in facts and syntax in ("cper", "coer", "xer", "cxer"):
